@@ -30,6 +30,11 @@ CONSTANTS
   BugCancelNoWake = %(BugCancelNoWake)s
   BugRefill = %(BugRefill)s
   BugNoClose = %(BugNoClose)s
+  Redis6 = %(redis6)s
+  BugPurgeStop = %(BugPurgeStop)s
+  BugPendingExpires = %(BugPendingExpires)s
+  BugSkipEmbedded = %(BugSkipEmbedded)s
+  RaceFlight = FALSE
 INVARIANTS %(invs)s
 CHECK_DEADLOCK FALSE
 %(tail)s'''
@@ -39,7 +44,8 @@ ASIS = 'TypeOK NoStaleHit Positional NoHole FailedFlightNotCached NoLostWaiter P
 d0 = dict(keys='"a"', cmds='"g"', callers='1, 2', kinds='"one"', minmulti=2, maxbatch=2, maxcalls=2, total=3, maxver=2, mode='optin',
           flush=1, expire=0, fail=0, cut=0, plain=0, cancelable='', maxf=4, atomic='FALSE', gate='', reduce='"full"', bykey='FALSE', invs=ALL,
           BugPurgePending='FALSE', BugSkipFlush='FALSE', BugReorder='FALSE', BugCacheFailed='FALSE', BugCancelNoWake='FALSE',
-          BugRefill='FALSE', BugNoClose='FALSE', tail='')
+          BugRefill='FALSE', BugNoClose='FALSE', redis6='FALSE', BugPurgeStop='FALSE', BugPendingExpires='FALSE',
+          BugSkipEmbedded='FALSE', tail='')
 
 
 def mk(name, **kw):
@@ -72,11 +78,27 @@ mk('MC_neg_reorder.cfg', BugReorder='TRUE', invs='NoStaleHit')
 mk('MC_neg_cachefailed.cfg', **dict(C09, BugCacheFailed='TRUE', invs='FailedFlightNotCached'))
 mk('MC_neg_cancelnowake.cfg', **dict(C09, BugCancelNoWake='TRUE', invs='NoLostWaiter'))
 mk('MC_neg_refill.cfg', **dict(C11, BugRefill='TRUE', invs='Positional'))
+# ---- round 2 (strengthening after seeded changes)
+# several cacheable commands per key: an invalidation meets a pending entry next to completed ones of the same key
+CMDS = dict(cmds='"g", "h"', kinds='"one"', callers='1, 2', maxcalls=2, total=3, maxver=1, flush=0, maxf=6)
+mk('MC_quick_c06_cmds.cfg', **CMDS)
+mk('MC_neg_purgestop.cfg', **dict(CMDS, BugPurgeStop='TRUE', invs='NoStaleHit'))
+# Redis 6: invalidations embedded in array replies
+R6 = dict(cmds='"g", "h"', kinds='"one"', keys='"a"', callers='1, 2', maxcalls=2, total=3, maxver=2, flush=0, maxf=4, redis6='TRUE')
+mk('MC_quick_c06_r6.cfg', **R6)
+mk('MC_neg_skipemb.cfg', **dict(R6, BugSkipEmbedded='TRUE', invs='NoStaleHit'))
+# a flight that stays pending for longer than the client TTL is still joined
+C09X = dict(C09, expire=1, flush=0, fail=0, cancelable='')
+mk('MC_quick_c09_exp.cfg', **C09X)
+mk('MC_neg_pendingexpires.cfg', **dict(C09X, BugPendingExpires='TRUE', invs='NoLostWaiter'))
+mk('MC_neg_pendingexpires_sf.cfg', **dict(C09X, BugPendingExpires='TRUE', invs='SingleFlight'))
 # ---- thorough
 mk('MC_thorough_c06.cfg', keys='"a", "b"', maxver=2, total=3, flush=1, expire=1, cancelable='1', fail=1)
 mk('MC_thorough_c09.cfg', **dict(C09, total=4, maxcalls=2, maxver=2))
 mk('MC_thorough_c11.cfg', **dict(C11, maxbatch=3, cmds='"g", "h"', maxf=6))
 mk('MC_thorough_cut.cfg', **dict(CUT, keys='"a", "b"', kinds='"one", "multi"', cancelable='1', fail=1))
+
+mk('MC_thorough_r6.cfg', **dict(R6, kinds='"one", "mget"', keys='"a", "b"', maxver=1, maxf=6))
 
 # ---- generation configs (module CacheGen): behaviours for the driver, the code as it is (CancelByKey = TRUE)
 GEN = dict(atomic='TRUE', bykey='TRUE', invs='GenPrint', keys='"ka", "kb"', tail='CONSTANT WantFlags = {}\n')
@@ -96,10 +118,40 @@ ST = dict(GEN, keys='"ka"', kinds='"one", "multi"', minmulti=1, maxbatch=1, call
 mk('Gen_stale.cfg', **dict(ST, tail='CONSTANT WantFlags = {"stalewaiter"}\nVIEW GenView\n'))
 mk('Gen_late.cfg', **dict(ST, gate='', maxcalls=2, tail='CONSTANT WantFlags = {"doublereq"}\nVIEW GenView\n'))
 
+# round 2: behaviours that show the named situation (flags)
+mk('Gen_cmds.cfg', **dict(GEN, keys='"ka"', cmds='"g", "h", "i"', kinds='"one", "multi"', minmulti=1, maxbatch=3, callers='1, 2, 3', maxcalls=2,
+                          total=4, maxver=2, flush=1, fail=0, cancelable='', maxf=10, tail='CONSTANT WantFlags = {"mixedpurge"}\n'))
+mk('Gen_pendexp.cfg', **dict(GEN, keys='"ka"', kinds='"one", "multi"', minmulti=1, maxbatch=1, callers='1, 2, 3', maxcalls=2, total=4, maxver=1,
+                             flush=0, expire=1, fail=0, cancelable='', maxf=8, tail='CONSTANT WantFlags = {"waitdead"}\n'))
+R6G = dict(GEN, cmds='"g", "h"', kinds='"one", "multi", "mget"', minmulti=1, maxbatch=2, callers='1, 2, 3', maxcalls=2, total=4, maxver=3,
+           flush=0, fail=1, cancelable='', maxf=10, redis6='TRUE')
+mk('Gen_r6.cfg', **dict(R6G, tail='CONSTANT WantFlags = {"embpurge"}\n'))
+
+# C06, the scripted product of CachePurge.tla: an invalidation meets a key with completed and pending entries
+mk('Cases_purge.cfg', **dict(GEN, mode='optin', keys='"ka", "kb"', cmds='"g", "h", "i", "j", "k", "l", "m", "n", "o", "p"', kinds='"one", "multi"', minmulti=1,
+                             maxbatch=2, callers='1, 2, 3', maxcalls=6, total=100, maxver=3, flush=1, expire=0, fail=0, cancelable='',
+                             maxf=20, invs='PurgePrint TypeOK NoStaleHit Positional NoHole NoLostWaiter', tail=''))
+t = open('Cases_purge.cfg').read().replace('SPECIFICATION Spec', 'SPECIFICATION PurgeSpec')
+open('Cases_purge.cfg', 'w').write(t)
+
+# C06 / C01 against a Redis 6 server, the scripted product of CacheR6.tla
+mk('Cases_r6.cfg', **dict(GEN, mode='optin', keys='"ka", "kb"', cmds='"g", "h", "i"', kinds='"one", "multi", "mget"', minmulti=1, maxbatch=2,
+                          callers='1, 2, 3, 4', maxcalls=3, total=100, maxver=3, flush=0, expire=0, fail=1, cancelable='', maxf=16, redis6='TRUE',
+                          invs='R6Print TypeOK NoStaleHit Positional NoHole NoLostWaiter', tail=''))
+t = open('Cases_r6.cfg').read().replace('SPECIFICATION Spec', 'SPECIFICATION R6Spec')
+open('Cases_r6.cfg', 'w').write(t)
+
+# C06 / C09: the look-up / registration race of the stores (CacheRace.tla)
+mk('Cases_race.cfg', **dict(GEN, mode='optin', keys='"ka", "kb"', cmds='"g"', kinds='"one", "multi", "mget"', minmulti=1, maxbatch=2,
+                            callers='1, 2, 3', maxcalls=2, total=100, maxver=3, flush=1, expire=0, fail=0, cancelable='', maxf=8,
+                            invs='RacePrint TypeOK NoStaleHit Positional NoHole NoLostWaiter SingleFlight', tail=''))
+t = open('Cases_race.cfg').read().replace('SPECIFICATION Spec', 'SPECIFICATION RaceSpec')
+open('Cases_race.cfg', 'w').write(t)
+
 # ---- C11: the exhaustive product (module CacheCases)
 def mkcases(name, maxbatch, mode='optin'):
-    mk(name, **dict(GEN, mode=mode, keys='"ka", "kb", "kc"', kinds='"multi", "mget"', minmulti=1, maxbatch=maxbatch, callers='1, 2, 3', maxcalls=3,
-                    total=100, maxver=1, flush=0, expire=1, fail=0, cancelable='', maxf=14, invs='CasePrint', tail=''))
+    mk(name, **dict(GEN, mode=mode, keys='"ka", "kb", "kc"', kinds='"multi", "mget"', minmulti=1, maxbatch=maxbatch, callers='1, 2, 3, 4', maxcalls=3,
+                    total=100, maxver=1, flush=0, expire=1, fail=1, cancelable='', maxf=14, invs='CasePrint', tail=''))
     t = open(name).read().replace('SPECIFICATION Spec', 'SPECIFICATION CaseSpec')
     open(name, 'w').write(t)
 mkcases('Cases_c11_quick.cfg', 3)
